@@ -62,7 +62,7 @@ func (prop) Cases(tier string, seed uint64) []core.Case {
 	var cs []core.Case
 	reps := 12
 	if tier == "thorough" {
-		reps = 60
+		reps = 600
 	}
 	for fi := range funcs {
 		for _, mode := range []string{"batch", "window", "eqtime"} {
@@ -698,6 +698,9 @@ func expect(f fspec, b batchIn, as string, usePT bool, mode string) expectation 
 		seen := map[string]bool{}
 		for _, u := range sorted {
 			k := fmt.Sprint(val(u))
+			if k == "-0" {
+				k = "0" // -0 and +0 are the same value (IEEE equality), whichever sign is reported
+			}
 			if !seen[k] {
 				seen[k] = true
 				e.points = append(e.points, epoint{v: val(u)})
@@ -883,10 +886,10 @@ func cmpBatchPoints(b *kit.B, exp expectation, f fspec, as string) string {
 			if !ok {
 				return fmt.Sprintf("output field %q missing", as)
 			}
-			gotSet[fmt.Sprintf("%T:%v", v, v)] = true
+			gotSet[zkey(v)] = true
 		}
 		for _, ep := range exp.points {
-			if !gotSet[fmt.Sprintf("%T:%v", ep.v, ep.v)] {
+			if !gotSet[zkey(ep.v)] {
 				return "distinct value missing"
 			}
 		}
@@ -935,4 +938,12 @@ func cmpBatchPoints(b *kit.B, exp expectation, f fspec, as string) string {
 		}
 	}
 	return ""
+}
+
+// zkey: type and value, with -0 folded onto +0 (equal values).
+func zkey(v interface{}) string {
+	if f, ok := v.(float64); ok && f == 0 {
+		v = float64(0)
+	}
+	return fmt.Sprintf("%T:%v", v, v)
 }
